@@ -5,6 +5,7 @@ CONSTANTS
   Evil = 3
   ClaimSet = {1, 2}
   NoteSet = {0, 1}
+  Services = {"a", "b"}
   MaxNet = 8
   MaxBlobs = 8
   MaxClock = 3
